@@ -33,6 +33,11 @@ def run(ck):
         s = ck.harness_output("curve-replay-" + fl, rc, out, err)
         ck.cov["cases_replayed"] += s.get("cases", 0)
         ck.cov["impl_checks"] += s.get("checks", 0)
+        if fl == "rel":      # more than 2^32 cells of real (array) storage: 4 GiB, uninstrumented build only
+            rc, out, err = ck.run([b, "hugearray"], timeout=600)
+            s = ck.harness_output("row-major-4GiB-" + fl, rc, out, err)
+            ck.cov["impl_checks"] += s.get("checks", 0)
+            ck.bound("largest_real_storage_cells", 65537 * 65536)
         tr = ck.path("trace-%s.ndjson" % fl)
         hk = ("7", "8") if ck.quick else ("7", "10")
         rc, out, err = ck.run([b, "trace", str(ck.seed), "150" if ck.quick else "800", hk[0], hk[1], tr], timeout=900)
